@@ -39,6 +39,7 @@ Record xcfg := { xgoal : goal;
 
 Record xans := { x_err : bool;        (* the routine called in this step raised mps_error (check_data, fstart/dstart, secular_*start) *)
                  x_whichd : bool;     (* check_data: which_case = 'd' *)
+                 x_lc0 : bool;        (* the leading coefficient of the polynomial is (still) zero after check_data; see X_start *)
                  x_fpe : bool;        (* a floating point exception was detected (preliminary packet / fiterate's excep) *)
                  x_pre : bool;        (* check_stop after the preliminary packet *)
                  x_back : bool;       (* DPE start, all approximations representable as doubles: back to float_phase *)
@@ -107,6 +108,7 @@ Definition xinit : xst :=
   {| xpc_ := X_start; xlast := NoPhase; xpacket := 0; xjr := false; xmpwp := 64; xerr := None; xroots := false |}.
 
 Definition msg_check_data := "check_data: unsupported option for this input".
+Definition msg_lc0 := "The leading coefficient of the polynomial is zero".
 Definition msg_start := "error raised while computing the starting points".
 Definition msg_phase := "Unrecognized starting phase".
 Definition msg_regen0 := "Unable to perform initial regeneration of the secular equation.".
@@ -134,13 +136,17 @@ Definition xstep (c : caps) (g : xcfg) (a : xans) (s : xst) : xst :=
       match kind g with
       | KSecular => xset_pc (xset_last s FloatP) X_starts
       | _ =>
+          (* after check_data (if it is called at all): fixes/C03_secular_zero_leading_coefficient.patch reports a leading
+             coefficient that is still zero instead of dividing by it in the regeneration (at HEAD that division kills the
+             process or the solve runs away: known findings, no run to model) *)
           match start_phase g with
           | NoPhase => if x_err a then xfail s msg_check_data
+                       else if x_lc0 a then xfail s msg_lc0
                        else if x_whichd a then xset_pc (xset_last s DpeP) (X_prelim SD)
                        else xset_pc (xset_last s FloatP) (X_prelim SF)
-          | FloatP => xset_pc (xset_last s FloatP) (X_prelim SF)
-          | DpeP => xset_pc (xset_last s DpeP) (X_prelim SD)
-          | MpP => xset_pc (xset_last s MpP) (X_prelim SM)
+          | FloatP => if x_lc0 a then xfail s msg_lc0 else xset_pc (xset_last s FloatP) (X_prelim SF)
+          | DpeP => if x_lc0 a then xfail s msg_lc0 else xset_pc (xset_last s DpeP) (X_prelim SD)
+          | MpP => if x_lc0 a then xfail s msg_lc0 else xset_pc (xset_last s MpP) (X_prelim SM)
           end
       end
   | X_prelim SF =>
@@ -164,8 +170,11 @@ Definition xstep (c : caps) (g : xcfg) (a : xans) (s : xst) : xst :=
       if x_err a then xfail s msg_start else xset_pc (xset_roots s) X_loop
   | X_loop => xloop_rest c g a (xafter_packet g a s)
   | X_cleanup =>
-      (* no error flag here.  p->prec > 0: mps_validate_inclusions, which switches to the MP phase first *)
-      let s1 := if negb (xin_prec g =? 0) && negb (is_mp (xlast s)) then xraise s else s in
+      (* no error flag here.  p->prec > 0: mps_validate_inclusions, which switches to the MP phase first.  It needs the Newton
+         correction of the polynomial type: without it (Chebyshev) the code at HEAD calls a NULL method (known finding, no run
+         to model); with fixes/C03_validate_inclusions_needs_newton.patch it warns and returns before the switch, which is what
+         is modelled here *)
+      let s1 := if negb (xin_prec g =? 0) && negb (is_mp (xlast s)) && can_improve g then xraise s else s in
       if is_approx (xgoal g) && can_improve g then xset_pc (xset_last s1 MpP) (X_improve (xwp_min g)) else xset_pc s1 X_return
   | X_improve cur =>
       if x_allapprox a then xset_pc s X_return
@@ -186,5 +195,5 @@ Definition XBound (c : caps) (g : xcfg) (W : nat) : nat :=
 
 (* the oracle that never lets the loop stop: every packet ends with best_approx *)
 Definition xans_adv : xans :=
-  {| x_err := false; x_whichd := false; x_fpe := false; x_pre := false; x_back := false; x_regen1 := true; x_regen := true;
+  {| x_err := false; x_whichd := false; x_lc0 := false; x_fpe := false; x_pre := false; x_back := false; x_regen1 := true; x_regen := true;
      x_stop := false; x_best := true; x_stop2 := false; x_allapprox := false |}.
